@@ -28,6 +28,12 @@ theorem marshal_names_decodable :
 theorem marshal_covers_all_collections :
     (decodableChildren "OSM").all (fun n => (emittedBy marshalInnerXMLCalls).contains n) = true := by decide
 
+/-- nothing present is left out: the top-level bounds are written exactly when there are bounds (a non-nil
+    pointer, whatever its coordinates) and every collection is encoded unconditionally -/
+theorem marshal_guards :
+    marshalInnerXMLGuards = ["o.Bounds != nil", "", "", "", "", "", ""] ∧ marshalInnerElementsXMLGuards = ["", "", ""] := by
+  decide
+
 /-- the osmChange block names and the diff `old`/`new` wrappers written by the custom marshalers are the
     ones the decoders read -/
 theorem block_names_decodable :
